@@ -80,7 +80,20 @@ def apply(x: Keyvalues, y: Keyvalues, a: dict):
             got = x[a['name']]
         except IndexError:
             got = 'none'
-        res = {'get': got, 'has': a['name'] in x}
+        kids = list(x)
+        pos = lambda kv: next(i + 1 for i, c in enumerate(kids) if c is kv)
+        try:
+            key = pos(x.find_key(a['name']))
+        except Exception:    # NoKeyError
+            key = 0
+        try:
+            block = pos(x.find_block(a['name']))
+        except Exception:
+            block = 0
+        res = {'get': got, 'has': a['name'] in x, 'all': [pos(c) for c in x.find_all(a['name'])],
+               'key': key, 'block': block}
+    elif op == 'setpath':
+        x.set_key((a['a'], a['b']), a['val'])
     else:
         raise ValueError(op)
     return x, res
@@ -120,7 +133,7 @@ def main() -> None:
         for _ in range(n):
             x = [rnode() for _ in range(rng.randint(0, 6))]
             y = [rnode() for _ in range(rng.randint(0, 3))]
-            op = rng.choice(['append', 'setstr', 'delstr', 'extend', 'iadd', 'add', 'copymut', 'ensure', 'merge', 'clear', 'lookup'])
+            op = rng.choice(['append', 'setstr', 'delstr', 'extend', 'iadd', 'add', 'copymut', 'ensure', 'merge', 'clear', 'lookup', 'setpath'])
             a = {'op': op}
             if op == 'append':
                 a.update(t=rng.choice('xy'), node=rnode(1))
@@ -128,6 +141,8 @@ def main() -> None:
                 a.update(name=rng.choice(names), val=rng.choice(vals))
             if op in ('delstr', 'ensure', 'merge', 'lookup'):
                 a.update(name=rng.choice(names))
+            if op == 'setpath':
+                a.update(a=rng.choice(names), b=rng.choice(names), val=rng.choice(vals))
             if op == 'delstr' and not any(k['n'].casefold() == a['name'].casefold() for k in x):
                 continue
             one(out, x, y, a, 'random')
